@@ -155,6 +155,13 @@ def tlc_simulate(module, cfg, workdir, *, num, depth, seed, timeout=300):
     if not behaviours:
         sys.stdout.write(out[-3000:])
         raise ToolError("simulation of %s produced no behaviours" % module)
+    # keep maximal behaviours only (TLC also prints the siblings of the successor a walk continues with), and bound their number
+    keys = sorted({json.dumps(b, sort_keys=True)[:-1] for b in behaviours})
+    maximal = [k for i, k in enumerate(keys) if not (i + 1 < len(keys) and keys[i + 1].startswith(k))]
+    behaviours = [json.loads(k + "]") for k in maximal]
+    if len(behaviours) > 2 * num:
+        import random
+        behaviours = random.Random(seed).sample(behaviours, 2 * num)
     return behaviours
 
 
